@@ -103,11 +103,33 @@ func c07Call(c *ctx, fn string, S int, box [4]int, paths [][][2]int, open int, r
 			}
 			isNil = len(res) == 0
 		case "Geometry":
-			var g orb.Geometry
+			var g, arg orb.Geometry = nil, in
 			if len(in) == 1 {
-				g = clip.Geometry(b, in[0])
+				arg = in[0]
+			}
+			if c.rng.Intn(2) == 0 {
+				g = clip.Geometry(b, arg)
 			} else {
-				g = clip.Geometry(b, in)
+				// as a member of a collection, behind a bound and in front of a point (each member is clipped to the box,
+				// whatever came before it): the member that comes back for the line is judged
+				real := func() float64 { return float64(c.rng.Intn(9)*S) / s }
+				pre := orb.MultiPoint{{real(), real()}, {real(), real()}}.Bound()
+				g = clip.Geometry(b, orb.Collection{pre, arg, orb.Point{real(), real()}})
+				switch coll := g.(type) {
+				case orb.Collection:
+					g = nil
+					for _, m := range coll {
+						switch m.(type) {
+						case orb.LineString, orb.MultiLineString:
+							if g == nil {
+								g = m
+							}
+						}
+					}
+				case orb.LineString, orb.MultiLineString: // the only member left comes back by itself
+				default:
+					g = nil
+				}
 			}
 			switch v := g.(type) {
 			case nil:
